@@ -1,7 +1,7 @@
 """C18: splitting, merging, loading, parsing and converting preserve every sample (def-use + table rules)."""
 
 from ..core import AnalysisError
-from ..ir import Walker, show, subterms
+from ..ir import Walker, has_guard, show, subterms
 from ..rules_ift import Rep
 
 EXPLANATION = (
@@ -128,10 +128,10 @@ def check_parser(rep, repo):
     rep.fn("PARSE-columns", fi, "features = columns 2.., labels = column 1 cast to int", ok,
            f"returns '{show(rets[0].value)[:160] if rets else '?'}'")
     raises = [e for e in w.events if e.kind == "raise"]
-    counts = ("proj", ("call", ("mod", "numpy.unique"), (Yt,), (("return_counts", ("const", True)),)), 1)
+    counts = ("idx", ("call", ("mod", "numpy.unique"), (Yt,), (("return_counts", ("const", True)),)), ("const", 1))
     n = ("call", ("builtin", "len"), (counts,), ())
     mx = [("bin", "+", *sorted([("const", 1), ("call", ("mod", f), (Yt,), ())], key=repr)) for f in ("numpy.max", "numpy.amax")]
-    okr = any(any(g == ("cmp", "!=", *sorted([n, m], key=repr)) and pol for g, pol in e.guards) for e in raises for m in mx)
+    okr = any(has_guard(e.guards, ("cmp", "!=", *sorted([n, m], key=repr))) for e in raises for m in mx)
     rep.fn("PARSE-sequential", fi, "non-sequential labels are rejected", okr,
            "expected a raise under len(distinct labels) != max(label) + 1")
     if rets and raises:
@@ -152,7 +152,11 @@ def converter_facts(repo, name):
     R = rec[0].value
     facts["record_in_loop_over"] = w.loops[rec[0].loops[-1]].domain
     fmt = rec[0].args[0]
-    if fmt[0] == "phi":
+    H0 = hdr[0].value
+    closed = [("bin", "+", *sorted([("const", "<ii"), ("bin", "*", *sorted([("const", "f"), ("idx", H0, ("const", 2))], key=repr))], key=repr))]
+    if fmt in closed:
+        facts["record_format"] = (("const", "<ii"), (("const", "f"),), ("call", ("builtin", "range"), (("idx", H0, ("const", 2)),), ()))
+    elif fmt[0] == "phi":
         li = w.loops[fmt[1]]
         init, end = li.carried[fmt[2]]
         facts["record_format"] = (init, tuple(sorted([x for x in end[2:4]], key=repr)) if end[0] == "bin" else end, li.domain)
